@@ -519,7 +519,10 @@ class CircAng(_Scalar0d):
         return 0 if bool(self.x > 0) else 2
 
     def is_negative(self):
-        return self.base == 'principal' and bool(self.y < 0)
+        k = self.k()
+        if k != 0:
+            return k < 0
+        return bool(self.y < 0)
 
     def as_positive(self):
         """the same direction read in [0, 2pi)"""
@@ -538,25 +541,33 @@ class CircAng(_Scalar0d):
     def cross(a, b):
         return a.x * b.y - a.y * b.x
 
+    def k(self):
+        """winding: value = principal + 2*pi*k"""
+        if self.base == 'principal':
+            return 0
+        c = self.cls()
+        if self.base == 'positive':
+            return 1 if c == -1 else 0
+        if self.base == 'negative':
+            return -1 if c in (1, 2) else 0
+        raise ValueError(self.base)
+
     def _lt(self, o):
-        """self < o as real numbers (same base required after conversion)"""
-        a, b = self, o
-        if a.base != b.base:
-            # a principal value that is >= 0 equals its positive reading
-            if a.base == 'principal':
-                if a.is_negative():
-                    return True            # negative < anything in [0, 2pi)
-                a = a.as_positive()
-            if b.base == 'principal':
-                if b.is_negative():
-                    return False
-                b = b.as_positive()
-        ra, rb = (a.pos_rank(), b.pos_rank()) if a.base == 'positive' else (a.pri_rank(), b.pri_rank())
+        """self < o as real numbers: compare windings first, then the principal values"""
+        ka, kb = self.k(), o.k()
+        ra, rb = self.pri_rank(), o.pri_rank()
+        if ka != kb:
+            # values p + 2 pi k with p in (-pi, pi]: a difference of windings of 2 decides; of 1 needs the principal parts
+            if abs(kb - ka) >= 2:
+                return ka < kb
+            lo, hi = (self, o) if ka < kb else (o, self)
+            # hi.value - lo.value = (p_hi - p_lo) + 2 pi > 0  always (p_hi - p_lo > -2 pi)
+            return ka < kb
         if ra != rb:
             return ra < rb
-        if ra in (0, 2) and a.base == 'positive' or (a.base == 'principal' and ra in (1, 3)):
+        if ra in (1, 3):
             return False                   # same ray: equal
-        return bool(CircAng.cross(a, b) > 0)
+        return bool(CircAng.cross(self, o) > 0)
 
     def __lt__(self, o):
         if isinstance(o, CircAng):
@@ -583,6 +594,8 @@ class CircAng(_Scalar0d):
 
     def __add__(self, c):
         if _is_const(c, TWO_PI):
+            if self.base == 'negative' and self.k() == -1:
+                return CircAng(self.x, self.y, 'principal', self.deg)
             if self.base == 'principal' and self.is_negative():
                 return self.as_positive()
             raise Inconclusive("adding 2pi to a non-negative angle")
@@ -637,13 +650,26 @@ class ArcDiff(_Scalar0d):
     def __init__(self, a, b, shifted=False):
         self.a, self.b, self.shifted = a, b, shifted
 
+    def K(self):
+        return self.b.k() - self.a.k()
+
     def raw_negative(self):
-        return (not self.shifted) and self.b._lt(self.a)
+        """b.value - a.value < 0 (before any normalisation)"""
+        if self.shifted:
+            return False
+        K = self.K()
+        if K != 0:
+            return K < 0               # |p_b - p_a| < 2 pi, so the windings decide
+        return self.b._lt(self.a)
 
     def rot(self):
         """direction of b rotated by -a: the difference modulo 2pi as a direction"""
         a, b = self.a, self.b
         return CircAng(a.x * b.x + a.y * b.y, a.x * b.y - a.y * b.x, 'positive')
+
+    def _principal_diff_gt_pi(self, lo, hi):
+        """p_hi - p_lo > pi  for principal values: needs p_lo < 0 < p_hi and hi clockwise of lo by less than pi"""
+        return lo.cls() == -1 and hi.cls() in (1, 2) and bool(CircAng.cross(lo, hi) < 0)
 
     def __lt__(self, o):
         if isinstance(o, ArcDiff):
@@ -658,9 +684,26 @@ class ArcDiff(_Scalar0d):
 
     def __gt__(self, o):
         if _is_const(o, PI_F):
-            if self.raw_negative():
+            if self.shifted:
+                return self.rot().pos_rank() == 3
+            K = self.K()
+            if K >= 2:
+                return True
+            if K <= -1:
                 return False
-            return self.rot().pos_rank() == 3
+            if K == 1:
+                # (p_b - p_a) + 2 pi > pi  <=>  p_a - p_b < pi  <=>  not (p_a - p_b >= pi)
+                a, b = self.a, self.b
+                if self._principal_diff_gt_pi(b, a):
+                    return False
+                # equality p_a - p_b == pi: opposite rays with p_b <= 0 < p_a
+                if b.cls() in (-1, 0) and a.cls() in (1, 2) and bool(CircAng.cross(b, a) == 0) and bool(a.x * b.x + a.y * b.y < 0):
+                    return False
+                return True
+            # K == 0
+            if self.b._lt(self.a):
+                return False
+            return self._principal_diff_gt_pi(self.a, self.b)
         if isinstance(o, ArcDiff):
             return o.__lt__(self)
         raise Inconclusive("comparison of an angle difference with a constant")
